@@ -145,6 +145,8 @@ def run_check(spec, prop, tier, seed, t0):
     # ---- known findings
     for kf in spec.known_lines:
         print("KNOWN-FINDING: property=%s %s" % (prop, kf))
+    # replays that carry a failing input first
+    violations.sort(key=lambda v: 1 if "no-failing-input-found" in v[1] else 0)
     nviol = len(violations)
     vlib.write_evidence(prop, tier, seed, cov, time.time() - t0, nviol, assumptions=spec.assumptions())
     for rp, suffix in violations[:5]:
